@@ -720,10 +720,60 @@ CONTEXTS = [   # (schema text around the type T, document around the value v, na
 ]
 
 
+# alias histories: schemas whose alias rules form a cycle (walked by the shared is_ident_* / unwrap / literal helpers, which keep
+# per-thread bookkeeping) followed by ordinary schemas that reuse the SAME rule names. The pool is tiny on purpose.
+ALIAS_NAMES = ["label", "count", "blob", "item"]
+
+
+def alias_group(rng):
+    n = rng.choice(ALIAS_NAMES)
+    m = rng.choice([x for x in ALIAS_NAMES if x != n])
+    cyc = "%s = %s\n%s = %s\n" % (n, m, m, n)
+    cyc3 = "%s = %s\n%s = link\nlink = %s\n" % (n, m, m, n)
+    self1 = "%s = %s\n" % (n, n)
+    poison = [   # (name, schema, documents): the cyclic name as control target / controller, unwrap target, range bound, member key
+        ("cyc.size", "r0 = %s .size 2\n" % n + cyc, ["ab", 3]),
+        ("cyc.lt", "r0 = %s .lt 3\n" % n + cyc, [1, 5]),
+        ("cyc.eq", 'r0 = %s .eq "ab"\n' % n + cyc3, ["ab", "zz"]),
+        ("cyc.ne", "r0 = %s .ne 3\n" % n + cyc, [3, 4]),
+        ("cyc.ctl-arg", "r0 = tstr .size %s\n" % n + cyc, ["ab", "abc"]),
+        ("cyc.regexp", "r0 = %s .regexp \"a+\"\n" % n + cyc, ["aa", "b"]),
+        ("cyc.unwrap", "r0 = [ ~%s, bool ]\n" % n + cyc, [["a", 1, True], [True]]),
+        ("cyc.range-lo", "r0 = %s..10\n" % n + cyc, [3, 30]),
+        ("cyc.range-hi", "r0 = 1..%s\n" % n + cyc3, [3, 30]),
+        ("cyc.key", "r0 = { %s => int }\n" % n + cyc, [{"a": 1}, {"a": "s"}]),
+        ("cyc.key-member", 'r0 = { "n": %s .size 2 }\n' % n + cyc, [{"n": "ab"}, {"n": 1}]),
+        ("cyc.self", "r0 = %s .size 2\n" % n + self1, ["ab", 3]),
+        ("cyc.partner", "r0 = %s .size 2\n" % m + cyc, ["ab", 3]),
+        ("cyc.choice", "r0 = ( %s / int ) .lt 3\n" % n + cyc, [1, 5]),
+    ]
+    def probes(x):
+        return [   # ordinary schemas that reuse the rule name x
+            ("use.size:" + x, "r0 = %s .size 2\n%s = tstr\n" % (x, x), ["ab", "abc"]),
+            ("use.lt:" + x, 'r0 = { "n": %s .lt 3 }\n%s = int\n' % (x, x), [{"n": 1}, {"n": 5}]),
+            ("use.eq:" + x, 'r0 = %s .eq "ab"\n%s = tstr\n' % (x, x), ["ab", "zz"]),
+            ("use.unwrap:" + x, "r0 = [ ~%s, bool ]\n%s = [ tstr, int ]\n" % (x, x), [["a", 1, True], ["a", True]]),
+            ("use.range:" + x, "r0 = 1..%s\n%s = 10\n" % (x, x), [5, 30]),
+            ("use.key:" + x, "r0 = { %s => int }\n%s = tstr\n" % (x, x), [{"a": 1}, {"a": "s"}]),
+            ("use.chain:" + x, "r0 = %s .size 2\n%s = inner\ninner = tstr\n" % (x, x), ["ab", "abc"]),
+            ("use.ctl-arg:" + x, "r0 = tstr .size %s\n%s = 2\n" % (x, x), ["ab", "abc"]),
+            ("use.plain:" + x, 'r0 = { "v": %s }\n%s = [ * int ]\n' % (x, x), [{"v": [1, 2]}, {"v": ["s"]}]),
+        ]
+    chosen = rng.sample(poison, 5) + rng.sample(probes(n), 5) + rng.sample(probes(m), 2)
+    members = []
+    for name, schema, values in chosen:
+        for entry in ("J", "C"):
+            members.append(("%s/%s" % (name, entry),
+                            [(entry, schema, json_text(v).encode() if entry == "J" else cbor_enc(v)) for v in values]))
+    return {"kind": "alias@%s-%s" % (n, m), "members": members}
+
+
 def history_group(rng, kind=None):
     """returns {"kind", "members": [(member name, [(entry, schema text, doc bytes)])]}: one member = one operator variant at one
     entry point with all the distinguishing documents"""
-    kind = kind or rng.choice(["regex", "regex", "regex", "eqne-text", "eqne-int", "cmp", "cut", "range", "occur", "type"])
+    kind = kind or rng.choice(["regex", "regex", "regex", "eqne-text", "eqne-int", "cmp", "cut", "range", "occur", "type", "alias", "alias"])
+    if kind == "alias":
+        return alias_group(rng)
     ctx_s, ctx_d, ctx_n = rng.choice(CONTEXTS)
     if kind == "regex":
         pat, full, infix, none = rng.choice(REGEX_PATTERNS)
@@ -1137,7 +1187,7 @@ def run(tier, seed):
     wide = bool(new_gs) or not proved
     n_groups = (36 if tier == "quick" else 600) * (4 if wide else 1)
     hstats = run_histories(res, drv, rng, n_groups, extra_orders=(12 if wide else 3) if tier == "quick" else 12,
-                           forced_kinds=["regex", "eqne-text", "eqne-int", "cmp", "cut", "range", "occur", "type"])
+                           forced_kinds=["regex", "eqne-text", "eqne-int", "cmp", "cut", "range", "occur", "type", "alias", "alias", "alias"])
     evaluations += hstats["isolated_calls"] + hstats["calls_in_histories"] + hstats["concurrent_calls"]
     phase("histories")
     if new_gs and res.violations:
